@@ -291,13 +291,25 @@ def render_case(idx, ch, typed):
             lines.append("    b0 = %s.Where(\n        %s\n    )" % (parent, supply(lm)))
             results.append("b0")
             truths.append(ast.Call(N("Where"), [copy.deepcopy(ptruth), strip(lm)], []))
-    head = "def build_%d(ds):\n" % idx
-    if cg.uses_local:
-        head += "    k_loc = 2\n"
-    body = "\n".join(lines) + "\n    return [%s]\n" % ", ".join(results)
     pre = ""
     if lam_table:
         pre = "LAMS_%d = [%s]\n\n\n" % (idx, ", ".join("ast.parse(%r).body[0].value" % s for s in lam_table))
+    if cg.uses_local:
+        # the same lambda code is used twice with another value of the captured local: every query must carry the value of ITS call
+        head = "def chain_%d(ds, k_loc):\n" % idx
+        body = "\n".join(lines) + "\n    return [%s]\n" % ", ".join(results)
+        head2 = "\n\ndef build_%d(ds):\n    first = chain_%d(ds, 2)\n    second = chain_%d(ds, 5)\n    return first + second\n" % (idx, idx, idx)
+
+        def second(t):
+            t = copy.deepcopy(t)
+            for n in ast.walk(t):
+                if isinstance(n, ast.Constant) and getattr(n, "_cap", None) == "k_loc":
+                    n.value = 5
+            return t
+        all_truths = truths + [second(t) for t in truths]
+        return dict(build=pre + head + body + head2, truths=[ast.unparse(x) for x in all_truths], typed=typed)
+    head = "def build_%d(ds):\n" % idx
+    body = "\n".join(lines) + "\n    return [%s]\n" % ", ".join(results)
     return dict(build=pre + head + body, truths=[ast.unparse(x) for x in truths], typed=typed)
 
 
